@@ -16,7 +16,9 @@ def find_leading_whitespace(s):
 
 
 def added_line_nums_strategy(lines, i):
-    return lines[i]
+    # A comma-separated `install_requires` changes a single line however many
+    # dependencies are added to it
+    return lines[min(i, len(lines) - 1)]
 
 
 class SetupCfgWriter(DependencyWriter):
